@@ -127,7 +127,7 @@ theorem exit_mid {lo hi b a : Rat} (ha0 : 0 ≤ a) (ha : a < 360) (hb0 : 0 ≤ b
     right
     refine ⟨by linarith, ?_⟩
     by_contra hc
-    push_neg at hc
+    push Not at hc
     exact h ⟨0, by push_cast; linarith [hc.1], by push_cast; linarith [hc.2]⟩
 
 /-- all three kinds of basin at once -/
